@@ -136,7 +136,17 @@ func (tw *tfWorld) transformBody(in *A, outRes *B) error {
 				if tw.lastSkip == nil {
 					tw.lastSkip = map[string]tfSkip{}
 				}
-				tw.lastSkip[in.Metadata().ID()] = tfSkip{LogLen: len(tw.Log), Val: outRes.TypedSpec().Val}
+				// the window in which "nothing else happened to the pair" starts at the commit that produced the input as
+				// the controller read it (it may have read it long before this call, e.g. before a slow transform)
+				from := 0
+				for k := len(tw.Log) - 1; k >= 0; k-- {
+					cm := tw.Log[k]
+					if cm.Type == TypeA && cm.ID == in.Metadata().ID() && cm.Kind == "put" && cm.Snap.Version == in.Metadata().Version().String() {
+						from = k + 1
+						break
+					}
+				}
+				tw.lastSkip[in.Metadata().ID()] = tfSkip{LogLen: from, Val: outRes.TypedSpec().Val}
 				tw.faultsFired++
 				tw.out.fault("transform-skip-tag")
 				if tw.c.Flavour == "qtransform" {
